@@ -154,6 +154,27 @@ def r3_r4(F, rep):
                                 "length read from the input is multiplied by `%s` inside has_remaining(): %s" % (
                                     X.text(other, f), why or "the product can wrap and pass the check"),
                                 "a corrupt length makes resize()/assign() throw or memcpy overrun", f.q)
+    # R4: the bounds check itself must be overflow-safe: its (caller-controlled) size
+    # parameter appears alone on one side of the comparison, never under + or *
+    hr = [f for f in F.funcs.values() if f.cls == MS and f.name == "has_remaining"]
+    if not hr:
+        raise AnalysisBroken("anchor memory_stream::has_remaining vanished")
+    for f in hr:
+        pk = {"%s#%s" % (p["n"], p["d"]) for p in f.params}
+        cmps = [n for n in f.walk() if n["k"] == "BinaryOperator" and n["op"] in ("<", "<=", ">", ">=")]
+        ok = bool(cmps)
+        why = "no comparison found"
+        for cnode in cmps:
+            l, r = X.kids(cnode)
+            kl, kr = X.key(l, f), X.key(r, f)
+            alone = (kl in pk and not any(p in kr for p in pk)) or (kr in pk and not any(p in kl for p in pk))
+            if not alone:
+                ok = False
+                why = "the requested size takes part in arithmetic inside the comparison `%s`, which can wrap" % X.text(cnode, f)
+            else:
+                why = "requested size stands alone in `%s`" % X.text(cnode, f)
+        seen["%s|overflow|has_remaining" % f.q] = (ok, f.loc(), "bounds check of the binary reader: " + why,
+                                                    "a corrupt length near 2^64 must not pass the check", f.q)
     for k, (ok, loc, what, detail, fq) in seen.items():
         rid = "C11-R4" if "|overflow|" in k else "C11-R3"
         rep.add(rid, k, loc, what, ok, detail=detail, func=fq)
